@@ -128,6 +128,39 @@ theorem C13_transparent (respond : Respond σ) (fuel : Nat) (sink : Sink σ) (cs
   have := writeChunks_count_ok respond fuel sink cs 0 h
   simpa using this
 
+/-- a sink that takes every buffer whole (Vec, Cursor, File): `write_all` succeeds on every chunk with
+    a single call, so `finish` hands over exactly the chunks, in order, and counts them all. (The
+    driver uses this to append the chunk list in one step for fault-free sinks.) -/
+theorem C13_reliable_sink (respond : Respond σ)
+    (hr : ∀ st buf, ∃ st', respond st buf = (st', .accept buf.length))
+    (fuel : Nat) (sink : Sink σ) (cs : List Bytes) (cnt : Nat) :
+    (writeChunks respond (fuel + 1) sink cs cnt).1.got = sink.got ++ cs.flatten ∧
+    (writeChunks respond (fuel + 1) sink cs cnt).2.1 = .ok () ∧
+    (writeChunks respond (fuel + 1) sink cs cnt).2.2 = cnt + (cs.map (·.length)).sum := by
+  have one : ∀ (s : Sink σ) (buf : Bytes),
+      (writeAll respond (fuel + 1) s buf).1.got = s.got ++ buf ∧ (writeAll respond (fuel + 1) s buf).2 = .ok () := by
+    intro s buf
+    unfold writeAll
+    by_cases hb : buf = []
+    · simp [hb]
+    · obtain ⟨st', hst⟩ := hr s.st buf
+      have hl : buf.length ≠ 0 := by simpa using hb
+      simp only [hb, if_false, hst, hl, Nat.min_self, List.take_length, List.drop_length]
+      cases fuel <;> simp [writeAll]
+  induction cs generalizing sink cnt with
+  | nil => simp [writeChunks]
+  | cons c cs ih =>
+    obtain ⟨h1, h2⟩ := one sink c
+    unfold writeChunks
+    cases hw : writeAll respond (fuel + 1) sink c with
+    | mk s' r =>
+      rw [hw] at h1 h2
+      simp only at h1 h2
+      subst h2
+      simp only
+      obtain ⟨i1, i2, i3⟩ := ih s' (cnt + c.length)
+      refine ⟨by rw [i1, h1]; simp, i2, by rw [i3]; simp; omega⟩
+
 /-- non-vacuity: a scripted sink that accepts 2 bytes, is interrupted, accepts 1 byte and then
     fails leaves exactly the 3-byte prefix -/
 example : (writeChunks scripted 10 ⟨[.accept 2, .interrupted, .accept 1, .fail 7], []⟩ [[1, 2, 3], [4, 5]] 0).1.got = [1, 2, 3] := by
